@@ -52,7 +52,8 @@ pub struct Sys {
 #[derive(Clone, PartialEq, Eq, Hash, Debug)]
 pub struct G {
     pub locals: Vec<u32>,
-    pub pool: Vec<u32>,
+    /// sorted ids of the messages sent so far; equal pools share one allocation (interned)
+    pub pool: std::sync::Arc<Vec<u32>>,
 }
 
 pub struct MsgInfo {
@@ -68,6 +69,19 @@ pub struct Caches {
     derivable: std::sync::Mutex<HashMap<Vec<u32>, std::sync::Arc<Derivable>>>,
     actions: std::sync::Mutex<HashMap<(usize, u32, u64, u64), std::sync::Arc<Vec<std::sync::Arc<Action>>>>>,
     verified_blocks: std::sync::Mutex<HashMap<u64, bool>>,
+    pools: std::sync::Mutex<HashSet<std::sync::Arc<Vec<u32>>>>,
+}
+
+impl Caches {
+    fn intern_pool(&self, p: Vec<u32>) -> std::sync::Arc<Vec<u32>> {
+        let mut m = self.pools.lock().unwrap();
+        if let Some(a) = m.get(&p) {
+            return a.clone();
+        }
+        let a = std::sync::Arc::new(p);
+        m.insert(a.clone());
+        a
+    }
 }
 
 #[derive(Default)]
@@ -167,7 +181,7 @@ struct Derivable {
 
 fn commit_groups(sys: &Sys, t: &Tables, g: &G) -> BTreeMap<(u64, AVote), Vec<(usize, u32)>> {
     let mut m: BTreeMap<(u64, AVote), Vec<(usize, u32)>> = BTreeMap::new();
-    for id in &g.pool {
+    for id in g.pool.iter() {
         let mi = &t.msgs[*id as usize];
         if mi.kind == 1 {
             let validator::ConsensusMsg::V2(v2::ChonkyMsg::ReplicaCommit(c)) = &mi.msg.msg else { continue };
@@ -180,7 +194,7 @@ fn commit_groups(sys: &Sys, t: &Tables, g: &G) -> BTreeMap<(u64, AVote), Vec<(us
 
 fn timeout_votes(t: &Tables, g: &G) -> BTreeMap<u64, BTreeMap<usize, Vec<u32>>> {
     let mut m: BTreeMap<u64, BTreeMap<usize, Vec<u32>>> = BTreeMap::new();
-    for id in &g.pool {
+    for id in g.pool.iter() {
         let mi = &t.msgs[*id as usize];
         if mi.kind == 2 {
             m.entry(mi.view).or_default().entry(mi.signer).or_default().push(*id);
@@ -199,7 +213,7 @@ fn z_timeout_variants(sys: &Sys, t: &Tables, g: &G, v: u64, known_cqcs: &[(Strin
     let mut out = vec![w.timeout_vote(v, None, None)];
     // any commit vote content seen so far as its high vote
     let mut seen: BTreeSet<AVote> = BTreeSet::new();
-    for id in &g.pool {
+    for id in g.pool.iter() {
         let mi = &t.msgs[*id as usize];
         if let validator::ConsensusMsg::V2(v2::ChonkyMsg::ReplicaCommit(c)) = &mi.msg.msg {
             if c.view.number.0 <= v && seen.insert(avote(c)) {
@@ -233,7 +247,7 @@ fn derivable(sys: &Sys, t: &Tables, g: &G) -> Derivable {
             tq_in.entry(atqc(tq)).or_insert_with(|| tq.clone());
         }
     };
-    for id in &g.pool {
+    for id in g.pool.iter() {
         let validator::ConsensusMsg::V2(x) = &t.msgs[*id as usize].msg.msg;
         match x {
             v2::ChonkyMsg::LeaderProposal(p) => note_just(&p.justification, &mut cqcs),
@@ -308,7 +322,7 @@ pub fn actions(sys: &Sys, t: &Tables, g: &G) -> Vec<std::sync::Arc<Action>> {
         }
     }
     avail.sort();
-    let (pk, ak) = (fx_hash(&g.pool), fx_hash(&avail));
+    let (pk, ak) = (fx_hash(&*g.pool), fx_hash(&avail));
     let mut out = vec![];
     for ri in 0..sys.correct.len() {
         let key = (ri, g.locals[ri], pk, ak);
@@ -332,14 +346,14 @@ fn actions_uncached(sys: &Sys, t: &Tables, g: &G, only: usize) -> Vec<Action> {
     let generous = w.c.total() - 2 * w.c.max_faulty();
     let mut out = vec![];
     let d = {
-        let hit = t.caches.derivable.lock().unwrap().get(&g.pool).cloned();
+        let hit = t.caches.derivable.lock().unwrap().get(&*g.pool).cloned();
         match hit {
             Some(d) => d,
             None => {
                 let t0 = std::time::Instant::now();
                 let d = std::sync::Arc::new(derivable(sys, t, g));
                 T_DERIV.fetch_add(t0.elapsed().as_micros() as u64, std::sync::atomic::Ordering::Relaxed);
-                t.caches.derivable.lock().unwrap().insert(g.pool.clone(), d.clone());
+                t.caches.derivable.lock().unwrap().insert((*g.pool).clone(), d.clone());
                 d
             }
         }
@@ -367,7 +381,7 @@ fn actions_uncached(sys: &Sys, t: &Tables, g: &G, only: usize) -> Vec<Action> {
             continue; // beyond the bound: not expanded
         }
         // 1. proposals / new-views from the pool
-        for id in &g.pool {
+        for id in g.pool.iter() {
             let mi = &t.msgs[*id as usize];
             if (mi.kind == 0 || mi.kind == 3) && mi.view >= view && mi.view <= sys.max_view + 1 {
                 out.push(Action { replica: ri, desc: format!("v{vi} receives {}", mi.desc), inputs: vec![LInput::Pool(*id)], restart: false, key: 0, crash_lost: false });
@@ -577,10 +591,14 @@ fn successor(t: &Tables, g: &G, a: &Action, mk: &MemoKey) -> (G, StepFlags) {
     let (new_lid, sent, flags) = t.memo.get(mk).expect("memo entry").clone();
     let mut ng = g.clone();
     ng.locals[a.replica] = new_lid;
-    for id in sent {
-        if let Err(pos) = ng.pool.binary_search(&id) {
-            ng.pool.insert(pos, id);
+    if sent.iter().any(|id| ng.pool.binary_search(id).is_err()) {
+        let mut p: Vec<u32> = (*ng.pool).clone();
+        for id in sent {
+            if let Err(pos) = p.binary_search(&id) {
+                p.insert(pos, id);
+            }
         }
+        ng.pool = t.caches.intern_pool(p);
     }
     (ng, flags)
 }
@@ -711,11 +729,12 @@ pub fn check_state(sys: &Sys, t: &Tables, g: &G) -> Vec<(String, String)> {
 }
 
 pub fn explore(cfg: &L2Cfg, keep_for_progress: usize) -> (Sys, Tables, L2Result) {
+    crate::core::trim_memory();
     let sys = system(cfg);
     let mut t = Tables::default();
     let mut res = L2Result::default();
     let l0 = t.intern_local(&sys.w, Local::initial());
-    let init = G { locals: vec![l0; sys.correct.len()], pool: vec![] };
+    let init = G { locals: vec![l0; sys.correct.len()], pool: Default::default() };
     let mut seen: HashSet<G> = HashSet::new();
     seen.insert(init.clone());
     let mut paths = Paths::default();
@@ -841,6 +860,9 @@ pub fn explore(cfg: &L2Cfg, keep_for_progress: usize) -> (Sys, Tables, L2Result)
     res.distinct_msgs = t.msgs.len();
     res.violations = viol.into_iter().map(|(k, (w, r))| (k, w, r)).collect();
     res.paths = paths;
+    drop(seen);
+    drop(frontier);
+    crate::core::trim_memory();
     (sys, t, res)
 }
 
@@ -849,7 +871,7 @@ pub fn replay(cfg: &L2Cfg, path: &[String]) -> Result<Vec<(String, String)>, Str
     let sys = system(cfg);
     let mut t = Tables::default();
     let l0 = t.intern_local(&sys.w, Local::initial());
-    let mut g = G { locals: vec![l0; sys.correct.len()], pool: vec![] };
+    let mut g = G { locals: vec![l0; sys.correct.len()], pool: Default::default() };
     for (k, d) in path.iter().enumerate() {
         let sp = sync_pool_of(&t, &g);
         let acts = actions(&sys, &t, &g);
@@ -860,11 +882,13 @@ pub fn replay(cfg: &L2Cfg, path: &[String]) -> Result<Vec<(String, String)>, Str
         let ids: Vec<u32> = sent.iter().map(|m| t.intern_msg(&sys.w, m)).collect();
         let nl = t.intern_local(&sys.w, local);
         g.locals[a.replica] = nl;
+        let mut p: Vec<u32> = (*g.pool).clone();
         for id in ids {
-            if let Err(pos) = g.pool.binary_search(&id) {
-                g.pool.insert(pos, id);
+            if let Err(pos) = p.binary_search(&id) {
+                p.insert(pos, id);
             }
         }
+        g.pool = t.caches.intern_pool(p);
     }
     Ok(check_state(&sys, &t, &g))
 }
